@@ -35,6 +35,19 @@ let rec p_expr = function
   | "bit" :: r -> (let (a, r) = p_expr r in match r with
       | i :: r -> (ESlice (a, nat_of_int (int_of_string i), S O), r)
       | _ -> raise (Parse "bit"))
+  | "slx" :: _sp :: _pw :: r -> (let (a, r) = p_expr r in match r with
+      | off :: w :: r -> (ESlice (a, nat_of_int (int_of_string off), nat_of_int (int_of_string w)), r)
+      | _ -> raise (Parse "slx"))
+  | "bitx" :: _sp :: _pw :: r -> (let (a, r) = p_expr r in match r with
+      | i :: r -> (ESlice (a, nat_of_int (int_of_string i), S O), r)
+      | _ -> raise (Parse "bitx"))
+  | "dpartx" :: _sp :: parts :: pw :: r ->
+      let (a, r) = p_expr r in let (i, r) = p_expr r in
+      (EDynPart (a, i, nat_of_int (int_of_string parts), nat_of_int (int_of_string pw)), r)
+  | "muxw" :: pw :: r ->
+      (* muxWord(Bit sel, UInt arr): the upper half if sel else the lower half = arr.part(2, sel) *)
+      let (sel, r) = p_expr r in let (a, r) = p_expr r in
+      (EDynPart (a, sel, nat_of_int 2, nat_of_int (int_of_string pw)), r)
   | "dsl" :: idxw :: w :: r ->
       let (a, r) = p_expr r in let (i, r) = p_expr r in
       (EDynSlice (a, i, nat_of_int (int_of_string idxw), nat_of_int (int_of_string w)), r)
@@ -52,6 +65,9 @@ let ni s = nat_of_int (int_of_string s)
 let p_sel = function
   | "st" :: off :: w :: r -> (SStatic (ni off, ni w), r)
   | "sb" :: i :: r -> (SBit (ni i), r)
+  | "sx" :: _sp :: _pw :: off :: w :: r -> (SStatic (ni off, ni w), r)
+  | "bx" :: _sp :: _pw :: i :: r -> (SBit (ni i), r)
+  | "dpx" :: _sp :: parts :: pw :: r -> let (e, r) = p_expr r in (SDynPart (e, ni parts, ni pw), r)
   | "ds" :: idxw :: w :: r -> let (e, r) = p_expr r in (SDynSlice (e, ni idxw, ni w), r)
   | "db" :: idxw :: pw :: r -> let (e, r) = p_expr r in (SDynBit (e, ni idxw, ni pw), r)
   | "dp" :: parts :: pw :: r -> let (e, r) = p_expr r in (SDynPart (e, ni parts, ni pw), r)
